@@ -44,7 +44,7 @@ func blen(r *hx.Rand) int {
 
 func gen(g *hx.Gen) {
 	r := g.R
-	n := g.Count(420, 6000)
+	n := g.Count(600, 6000)
 	for i := 0; i < n; i++ {
 		mode := r.PickStr("i", "i", "i", "id", "id", "id", "d")
 		p := r.PickInt(1, 1, 2, 2, 3, 4, 4, 5, 8)
@@ -71,6 +71,11 @@ func gen(g *hx.Gen) {
 			g.Stat("m.non-multiple")
 		default:
 			m = r.Range(8*p, 8*p+40)
+		}
+		if !g.Thorough() && r.Chance(1, 60) {
+			p = r.PickInt(1, 2)
+			m = r.Range(513, 640) * p // segments > 128: a second address block in Argon2i / Argon2id
+			g.Stat("m.segments>128")
 		}
 		if g.Thorough() && r.Chance(1, 12) {
 			m = r.Range(1, 256)
